@@ -19,6 +19,9 @@ TYPE_RX = (r"(?:typename\s+)?(?:SimTK::)?(?:"
 DECL_RX = re.compile(r"^(?:static\s+)?(?:const\s+)?(" + TYPE_RX + r")\s*(?:const\s*)?&?\s+(?=[A-Za-z_])")
 
 
+GENERIC_DECL_RX = re.compile(r"^(?:static\s+)?(?:const\s+)?((?:[A-Za-z_]\w*::)*[A-Za-z_]\w*(?:<[^;=()]*?>)?(?:::\w+)?)\s*(?:const\s*)?[&*]?\s+(?=[A-Za-z_]\w*\s*(?:=|\(|,|$))(?!(?:and|or|not|if|else|in|is)\b)")
+
+
 def split_top(s, sep=","):
     out, depth, cur = [], 0, []
     i = 0
@@ -250,7 +253,7 @@ class Translit:
                     text = r2; continue
                 if kw == "for":
                     parts = split_top(head, ";")
-                    fm = re.match(r"(?:int|unsigned|size_t)?\s*(\w+)\s*=\s*(.+)$", parts[0])
+                    fm = re.match(r"(?:int|unsigned|size_t|\w+Index)?\s*(\w+)\s*=\s*(.+)$", parts[0]) or re.match(r"(?:\w+Index)\s+(\w+)\s*\((.+)\)$", parts[0])
                     cm = re.match(r"(\w+)\s*(<=|<)\s*(.+)$", parts[1])
                     im = re.match(r"(?:\+\+(\w+)|(\w+)\+\+)$", parts[2].replace(" ", ""))
                     if not (fm and cm and im and fm.group(1) == cm.group(1)):
@@ -318,9 +321,16 @@ class Translit:
             return ["return " + (self.expr(e) if e else "None")]
         if st in ("continue", "break"):
             return [st]
-        if re.match(r"(SimTK_ASSERT|SimTK_ERRCHK|SimTK_APIARGCHECK|SimTK_INDEXCHECK|SimTK_SIZECHECK|assert)\w*\s*\(", st):
+        m = re.match(r"^(?:\+\+\s*([\w.\[\]]+)|([\w.\[\]]+)\s*\+\+)$", st)
+        if m:
+            self.hit("increment->+=1", st)
+            return ["%s += 1" % self.expr(m.group(1) or m.group(2))]
+        if re.match(r"(SimTK_ASSERT|SimTK_ERRCHK|SimTK_APIARGCHECK|SimTK_INDEXCHECK|SimTK_SIZECHECK|SimTK_STAGECHECK|assert)\w*\s*\(", st):
             self.dropped.append(dict(rule="assert/argument-check dropped (its condition is a precondition of the contract)", text=st)); return []
         m = DECL_RX.match(st)
+        if not m:
+            # generic declaration: a statement that starts with <type> <identifier> (two adjacent names)
+            m = GENERIC_DECL_RX.match(st)
         if m:
             ty = m.group(1)
             rest = st[m.end():]
